@@ -386,8 +386,8 @@ def classify(w):
 
 
 GENS = {
-    "solve": Gen(case_solve, 350, 35000),
-    "leakage": Gen(case_leakage, 120, 12000),
+    "solve": Gen(case_solve, 350, 70000),
+    "leakage": Gen(case_leakage, 120, 24000),
 }
 MIN_EVALS = {"identity-equivalent-channel": 1500, "unit-norm-precoder": 1500,
              "power-limit": 3000, "shapes-and-stream-counts": 1500,
